@@ -382,7 +382,7 @@ class Interp(Engine):
 
     def iter_seq(self, it, node):
         """(z3 Seq being iterated, element tag)"""
-        if isinstance(it, ZipV):
+        if isinstance(it, (ZipV, RevV)):
             return it, None
         if isinstance(it, (PSeq,)):
             return it.seq, it.elem
@@ -543,7 +543,7 @@ class Interp(Engine):
         zipv = None
         if is_for:
             seq, elem = self.iter_seq(it, node.iter)
-            if isinstance(seq, ZipV):
+            if isinstance(seq, (ZipV, RevV)):
                 zipv = seq
                 seq = None
         fr = self.frame
@@ -614,12 +614,18 @@ class Interp(Engine):
         if go:
             if is_for:
                 self.assign(node.target, zipv.item(self, i) if zipv is not None else self.from_term(seq[i], elem), node)
+            self.iter_stack.append(dict(self.st.heap))     # state at the start of this iteration, for iter0(...)
             try:
-                self.exec_block(node.body)
-            except PyContinue:
-                pass
-            except PyBreak:
-                return    # continue after the loop, skipping orelse
+                try:
+                    self.exec_block(node.body)
+                except PyContinue:
+                    pass
+                except PyBreak:
+                    return    # continue after the loop, skipping orelse
+                for k, be in enumerate(spec.get("body_ensures", [])):
+                    self.oblige("body-post", self.spec_bool(parse_expr(be)), node, "loop%d.%d" % (ordinal, k))
+            finally:
+                self.iter_stack.pop()
             if is_for:
                 bind_ghost(i + 1)
             for k, inv in enumerate(invs):
@@ -1056,7 +1062,7 @@ class Interp(Engine):
             i = z3.simplify(z3.If(i < 0, n + i, i))
             ok = z3.And(0 <= i, i < n)
             et = self.elem_tag(obj)
-            if et and et.startswith("("):
+            if et and et.startswith("(") and isinstance(obj, SV) and parse_tag(obj.ty)[0] == "tuple" and parse_tag(obj.ty)[1] == et:
                 tags = _split_tags(et)
                 et = tags[i.as_long()] if z3.is_int_value(i) and 0 <= i.as_long() < len(tags) else None
                 if z3.is_int_value(i) and 0 <= i.as_long() < len(tags):
@@ -1329,6 +1335,21 @@ class ExtV(Value):
 class RangeV(Value):
     def __init__(self, lo, hi):
         self.lo, self.hi = lo, hi
+
+
+class RevV(Value):
+    """reversed(xs) over a symbolic sequence: element i is xs[len-1-i] (no copy, no auxiliary axioms)"""
+    def __init__(self, seq, elem):
+        self.seq, self.elem = seq, elem
+
+    def static_len(self):
+        return None
+
+    def length(self, eng):
+        return z3.Length(self.seq)
+
+    def item(self, eng, i):
+        return eng.from_term(self.seq[z3.Length(self.seq) - 1 - i], self.elem)
 
 
 class ZipV(Value):
